@@ -35,6 +35,12 @@ def main(argv=None):
             if isinstance(body.get('case'), dict) and body['case'].get('kind') == 'first_use':
                 from . import conc
                 bad = conc.replay_first_use(body['case'])
+            elif isinstance(body.get('case'), dict) and body['case'].get('kind') == 'extra11':
+                from .checks import extra11
+                bad = extra11.replay(body['case'])
+            elif isinstance(body.get('case'), dict) and body['case'].get('kind') == 'variant':
+                from . import variants
+                bad = variants.replay(body['case'])
             elif isinstance(body.get('case'), dict) and body['case'].get('kind') == 'reentrancy':
                 from . import conc
                 bad = conc.replay(body['case'])
@@ -48,6 +54,12 @@ def main(argv=None):
             return 0
         ctx = core.Ctx(pid, args.tier, seed)
         mod.run(ctx)
+        # the same conformance items in fresh interpreters started with -O / -OO / an unruly clock
+        from . import variants
+        from .checks import extra11
+        if not os.environ.get('VF_NO_VARIANTS'):      # (only used to measure what round 11 added)
+            variants.check(ctx, pid)
+            extra11.run(ctx, pid)
         rc = ctx.finish()
         print('%s %s tier=%s seed=%d states=%d transitions=%d replayed=%d validated=%d wall=%.1fs' % (
             pid, 'FAIL' if rc else 'ok', args.tier, seed, ctx.states, ctx.transitions,
